@@ -676,6 +676,39 @@ func init() {
 						judgeExpr(c, model.Binary{Op: "+", L: model.Dot{X: obj, Name: name}, R: model.Index{X: obj, I: model.Lit{V: model.Str(name)}}}, nil, "tricky-name-property")
 					}
 				}})
+			// numbers bound through the data map as Go values of every width: expressions over them give what they give over the
+			// equal 64-bit integer or double
+			type natNum struct {
+				name string
+				v    any
+				eq   model.Value
+			}
+			natNums := []natNum{
+				{"int8 min", int8(math.MinInt8), model.Int(math.MinInt8)}, {"int8 max", int8(math.MaxInt8), model.Int(math.MaxInt8)}, {"int16 min", int16(math.MinInt16), model.Int(math.MinInt16)},
+				{"int32 min", int32(math.MinInt32), model.Int(math.MinInt32)}, {"int32 max", int32(math.MaxInt32), model.Int(math.MaxInt32)}, {"int -7", -7, model.Int(-7)},
+				{"uint8 200", uint8(200), model.Int(200)}, {"uint8 255", uint8(255), model.Int(255)}, {"uint16 40000", uint16(40000), model.Int(40000)}, {"uint16 max", uint16(math.MaxUint16), model.Int(math.MaxUint16)},
+				{"uint32 2^31", uint32(1 << 31), model.Int(1 << 31)}, {"uint32 3000000000", uint32(3000000000), model.Int(3000000000)}, {"uint32 max", uint32(math.MaxUint32), model.Int(math.MaxUint32)},
+				{"uint 2^40", uint(1 << 40), model.Int(1 << 40)}, {"uint64 2^62", uint64(1 << 62), model.Int(1 << 62)}, {"uint64 max int64", uint64(math.MaxInt64), model.Int(math.MaxInt64)}, {"int64 min", int64(math.MinInt64), model.Int(math.MinInt64)},
+				{"float32 0.5", float32(0.5), model.Float(0.5)}, {"float32 16777216", float32(16777216), model.Float(16777216)}, {"float32 -2.25", float32(-2.25), model.Float(-2.25)}, {"float64 1e15+0.5", 1e15 + 0.5, model.Float(1e15 + 0.5)},
+			}
+			secs = append(secs, core.Section{Name: "native-number-bindings", Exhaustive: true, N: len(natNums),
+				Run: func(c *core.Ctx, i int) {
+					nn := natNums[i]
+					srcs := []string{"{{ x }}", "{{ x + 1 }}", "{{ x * 2 - x }}", "{{ x > 0 ? \"pos\" : \"neg\" }}", "{{ -x }}", "{{ x == x }}", "{{ [x][0] }}", "{{ {k: x}.k + x }}", "{{ x / 3 }}", "{{ x % 7 }}"}
+					if nn.eq.K == model.KFloat {
+						srcs = []string{"{{ x }}", "{{ x + 1.0 }}", "{{ x * 2.0 - x }}", "{{ x > 0.0 ? \"pos\" : \"neg\" }}", "{{ -x }}", "{{ x == x }}", "{{ [x][0] }}", "{{ x / 4.0 }}"}
+					}
+					for _, src := range srcs {
+						c.Input(map[string]any{"source": src, "x": nn.name})
+						got := evalString(c, src, map[string]any{"x": nn.v})
+						want := evalString(c, src, model.NativeData(map[string]model.Value{"x": nn.eq}))
+						c.Nontrivial(src + nn.name)
+						if !got.Panicked && !want.Panicked && got.Describe() != want.Describe() {
+							c.Violation("native-number-binding", fmt.Sprintf("with x bound to %s, %s gave %s; with the equal %s it gives %s", nn.name, src, got.Describe(), nn.eq.Describe(), want.Describe()), map[string]any{"source": src, "x": nn.name})
+						}
+					}
+					judgeExpr(c, model.Binary{Op: "+", L: model.Var{Name: "x"}, R: model.Var{Name: "x"}}, map[string]model.Value{"x": nn.eq}, "native-number")
+				}})
 			// the same expression evaluated in several passes of a loop gives the same value every time
 			// long and deep expressions: chains of 16..1000 operands, nests of 64..300 parentheses, ternaries, prefix
 			// operators, member calls, literals with many elements
